@@ -523,12 +523,12 @@ class SolverFaultsEngine(EngineBase):
 
     # ------------------------------------------------------------------------------------------
     def rule_text(self):
-        return ('each evaluation is a seeded sequence of 2-8 operations sent to a sacrificial interpreter: build a 1-5 layer planet '
+        return ('each evaluation is a seeded sequence of 2-8 operations sent to a sacrificial interpreter: build a 1-5 (sometimes 6-40) layer planet '
                 '(solid/liquid x static/dynamic x (in)compressible, optional NaN/inf/zero/negative poison at a seeded slice), solve with '
-                'a seeded fault (unknown/too many solve_for, malformed tuples/arrays/dtypes, degree 0/1, zero/negative frequency, step / '
-                'RAM / tolerance budgets, unknown integrator), read the solution, hold its arrays, drop it, re-read. After every '
-                'operation: worker alive and answered in time, caller arrays equal their snapshot within 4 ulp, success/message/result '
-                'protocol. distinct = distinct operation list; non-trivial = at least one solve executed.')
+                'a seeded fault (unknown/too many solve_for, malformed tuples/arrays/dtypes, aliased arrays, degenerate layer stacks, degree 0/1 or '
+                '45-150, zero/negative frequency, bad bulk density, step / RAM / tolerance budgets, unknown integrator), read the solution, hold its arrays, drop it, re-read. After every '
+                'operation: worker alive and answered in time, caller arrays equal their pre-call values within 4 ulp and the sentinel guard zones around them '
+                'are intact, success/message/result protocol. distinct = distinct operation list; non-trivial = at least one solve executed.')
 
     def components(self):
         return {'real': ['TidalPy.RadialSolver.radial_solver and RadialSolverSolution (pre-built compiled extension; cannot be rebuilt: no Cython in the sandbox)',
